@@ -240,7 +240,53 @@ func ruleEncodeDecodeArgs(c *core.Ctx) {
 			}
 			o.Count(len(ea))
 			if strings.Join(ea, ",") != strings.Join(da, ",") {
-				o.Fail("Encode passes (%s) but Decode passes (%s)", strings.Join(ea, ", "), strings.Join(da, ", "))
+				// one side may bundle the parameters into a struct literal: then the values are
+				// compared as a set (zero values left out); the positions cannot be compared
+				bundled := false
+				values := func(fn *core.Func, callee string) []string {
+					var out []string
+					for _, call := range core.CallsTo(fn.Info(), fn.Decl, false, callee) {
+						for _, a := range call.Args {
+							s := core.ExprStr(a)
+							if s == "w" || s == "r" || s == "budget" {
+								continue
+							}
+							// cfg := settings{...}; decode(r, cfg, budget)
+							if id, isID := ast.Unparen(a).(*ast.Ident); isID {
+								if obj := fn.Info().ObjectOf(id); obj != nil {
+									if ds := core.AssignsTo(fn.Info(), fn.Decl, obj); len(ds) == 1 {
+										if das, isAs := ds[0].(*ast.AssignStmt); isAs && len(das.Lhs) == 1 && len(das.Rhs) == 1 {
+											a = das.Rhs[0]
+										}
+									}
+								}
+							}
+							if cl, isCL := ast.Unparen(a).(*ast.CompositeLit); isCL {
+								bundled = true
+								for _, v := range compositeFields(fn.Info(), cl) {
+									out = append(out, core.ExprStr(v))
+								}
+								continue
+							}
+							out = append(out, s)
+						}
+						break
+					}
+					var nz []string
+					for _, v := range out {
+						if v != "false" && v != "0" && v != "nil" {
+							nz = append(nz, v)
+						}
+					}
+					sort.Strings(nz)
+					return nz
+				}
+				ev, dv := values(enc, "pdf.encodeFlateLZW"), values(dec, "pdf.decodeFlateLZW")
+				if bundled && strings.Join(ev, ",") == strings.Join(dv, ",") {
+					o.Unrec("%s: the parameters are handed over in a struct on one side: the same values (%s) reach both sides, their positions are not compared", tname, strings.Join(ev, ", "))
+				} else {
+					o.Fail("Encode passes (%s) but Decode passes (%s)", strings.Join(ea, ", "), strings.Join(da, ", "))
+				}
 			}
 		})
 	}
@@ -1449,6 +1495,11 @@ func ruleASCII85PendingOutput(c *core.Ctx, rule string) {
 				return true
 			})
 			return found
+		}
+		if !mentionsLeftover(fn.Decl.Body) {
+			o.Count(1)
+			o.Unrec("the reader keeps no slice called leftover (the pending bytes are held in another form): which returns can happen while bytes are pending is not decided")
+			return
 		}
 		// masking defers: defer func() { if len(r.leftover) > 0 { err = nil } }()
 		var masks []*core.V
